@@ -236,7 +236,7 @@ fn stable_phase(start: &F, words: &[u32], seen: &mut HashSet<u128>) -> Result<St
 pub fn c14(tier: &str) -> Report {
     let th = tier == "thorough";
     let mut rep = Report::new("C14", tier, "model_checking");
-    let (max_addr, max_down, ops) = if th { (5u8, 2usize, 7usize) } else { (4, 1, 5) };
+    let (max_addr, max_down, ops) = if th { (6u8, 3usize, 8usize) } else { (5, 2, 6) };
     let l = max_addr as usize; // records never exceed the number of addresses
     let words = rng::menu(l + 1, l);
     match rng::calibrate(&words, l + 1, l) {
